@@ -93,7 +93,8 @@ def main(argv):
     os.makedirs(os.path.join(meta, 'dznpy-7.7.7.dist-info'))
     open(os.path.join(meta, 'dznpy-7.7.7.dist-info', 'METADATA'), 'w').write('Metadata-Version: 2.1\nName: dznpy\nVersion: 7.7.7\n')
     open(os.path.join(meta, 'dznpy-7.7.7.dist-info', 'RECORD'), 'w').write('')
-    clock[1].update({'USER': 'alice', 'LOGNAME': 'alice', 'HOME': os.path.join(fsdir, 'home_alice'), 'HOSTNAME': 'build-17', 'SOURCE_DATE_EPOCH': '86400',
+    # ... one of them runs the interpreter with -OO (assert statements and docstrings stripped)
+    clock[1].update({'PYTHONOPTIMIZE': '2', 'USER': 'alice', 'LOGNAME': 'alice', 'HOME': os.path.join(fsdir, 'home_alice'), 'HOSTNAME': 'build-17', 'SOURCE_DATE_EPOCH': '86400',
                      'PYTHONPATH': os.pathsep.join([meta, os.path.join(REPO, 'src'), os.path.join(VERIF, 'harness')])})
     # ... and one of them answers every environment variable the library itself reads with a made-up value
     clock[2].update({'VERIF_HOSTILE_ENV': '1', 'USER': 'bob', 'HOME': '/nonexistent', 'SOURCE_DATE_EPOCH': '1700000000', 'COLUMNS': '40', 'TMPDIR': fsdir})
